@@ -303,6 +303,8 @@ def write_ledger(pids):
             (ok if r["verdict"] == "unsat" else bad).add(o.name)
             if r["verdict"] == "unsat" and (r["solver"] or "").startswith("cvc5"):
                 hints[o.name] = "cvc5"
+            elif r["verdict"] == "unsat" and "(long attempt)" in (r["solver"] or "") and hints.get(o.name) != "cvc5":
+                hints[o.name] = "z3-long"
         ok -= bad
         json.dump({"classes": sorted(ok), "covers": sorted(covers), "functions": fns, "hints": hints}, open(os.path.join(HERE, "ledger", f"{pid}.json"), "w"), indent=1)
         print(f"{pid}: {len(ok)} classes in ledger, {len(bad)} not discharged: {sorted(bad)[:8]}")
